@@ -34,6 +34,26 @@ PointsAlong(u, D, delta, tol) ==
 
 ElongOK(u, us, cel, sel, tol) == Le(Abs(Sub(Dot(u, us), cel)), Mul(tol, Add(Abs(sel), tol)))
 
+\* The true obliquity handed over as a witness (eps, degrees; ce se its cosine and sine) is validated HERE: Laskar's
+\* polynomial for the mean obliquity (arcsec, u = 10000 Julian years from J2000) plus at most 0.003 deg of nutation in
+\* obliquity (9.2" main term), and (ce, se) by a Taylor step from cos/sin 23.44 deg (|eps - 23.44| < 0.6 deg: d^6/720 < 1e-15)
+Obl0(jde) ==
+  LET u == DivInt(DivInt(Sub(jde, FromInt(2451545)), 36525), 100)
+      H(c, r) == Add(c, Mul(u, r))
+  IN DivInt(H(Add(FromInt(84381), Dec(448, 3)), H(Neg(Add(FromInt(4680), Dec(93, 2))), H(Neg(Dec(155, 2)), H(Add(FromInt(1999), Dec(25, 2)),
+       H(Neg(Dec(5138, 2)), H(Neg(Dec(24967, 2)), H(Neg(Dec(3905, 2)), H(Dec(712, 2), H(Dec(2787, 2), H(Dec(579, 2), Dec(245, 2))))))))))), 3600)
+C2344 == Add(Dec(917477140, 9), Dec(5229186, 16))           \* cos 23.44 deg = 0.9174771405229186
+S2344 == Add(Dec(397788507, 9), Dec(3979497, 16))           \* sin 23.44 deg = 0.3977885073979497
+ObliquityWitnessOK(eps, ce, se, jde) ==
+  LET d  == DivInt(Mul(Sub(eps, Dec(2344, 2)), PiS), 180)
+      d2 == Mul(d, d)
+      cd == Add(Sub(One, DivInt(d2, 2)), DivInt(Mul(d2, d2), 24))
+      sd == Mul(d, Add(Sub(One, DivInt(d2, 6)), DivInt(Mul(d2, d2), 120)))
+  IN /\ Le(Abs(Sub(eps, Obl0(jde))), Dec(3, 3))
+     /\ Le(Abs(Sub(eps, Dec(2344, 2))), Dec(6, 1))
+     /\ Near(ce, Sub(Mul(C2344, cd), Mul(S2344, sd)), Dec(1, 12))
+     /\ Near(se, Add(Mul(S2344, cd), Mul(C2344, sd)), Dec(1, 12))
+
 VerdictPl ==
   LET D == VSub(Ev.P, Ev.E)
       ue == RotX(Ev.u, Ev.ce, Ev.se)
@@ -41,6 +61,7 @@ VerdictPl ==
   IN Viol("WITNESS", /\ IsUnit(Ev.u) /\ IsUnit(Ev.us) /\ IsSC(Ev.ce, Ev.se) /\ IsSC(Ev.cel, Ev.sel)
                      /\ Near(Norm2(Ev.E), Mul(Ev.RE, Ev.RE), Dec(1, 10)) /\ Near(Norm2(Ev.P), Mul(Ev.RP, Ev.RP), Mul(Dec(1, 10), Mul(Ev.RP, Ev.RP)))
                      /\ Near(Mul(Ev.delta, Ev.delta), Norm2(D), Mul(Dec(1, 10), Norm2(D))))
+\cup Viol("WITNESS_OBLIQUITY", ObliquityWitnessOK(Ev.eps, Ev.ce, Ev.se, Ev.jb))
 \cup Viol("LIGHT_TIME", Near(Ev.tau, Mul(LightTime, Ev.delta), Dec(1, 7)))
 \cup Viol("GEOCENTRIC_DIRECTION", PointsAlong(ue, D, Ev.delta, tol))
 \cup Viol("ELONGATION_VALUE", ElongOK(ue, Ev.us, Ev.cel, Ev.sel, tol))
